@@ -61,7 +61,7 @@ def hosvd(  # noqa: PLR0912,PLR0913,PLR0915
     if ranks is None:
         ranks = np.zeros((d,), dtype=int)
     else:
-        ranks = parse_one_d(ranks)
+        ranks = parse_one_d(ranks).copy()
 
     if len(ranks) != d:
         raise ValueError(
